@@ -239,9 +239,7 @@ Ltac leaf_nf H sub :=
   end.
 
 Ltac split_fnum H fnum :=
-  let p := fresh "p" in
-  destruct fnum as [|p];
-  [ | repeat (match type of H with context [match ?q with _ => _ end] => is_var q; destruct q end) ].
+  repeat (match type of H with context [if N.eqb fnum ?c then _ else _] => destruct (N.eqb fnum c) end).
 
 Ltac step_total_tac stepdef sub :=
   let l := fresh "l" in let x := fresh "x" in let rest := fresh "rest" in let Hne := fresh "Hne" in
